@@ -51,12 +51,15 @@ def prepare():
         lock = f.read()
     lp = os.path.join(RSRC, "Cargo.lock")
     # cargo adds the verif-replay package to its copy of the lock file: refresh only when the repository's changed
+    # (or the crate's dependency list: cargo prunes packages the previous dependency set did not need)
     stamp = os.path.join(RSRC, ".repo-lock")
-    if not os.path.exists(lp) or not os.path.exists(stamp) or open(stamp).read() != lock:
+    with open(os.path.join(RSRC, "Cargo.toml")) as f:
+        want = f.read() + "\n#----\n" + lock
+    if not os.path.exists(lp) or not os.path.exists(stamp) or open(stamp).read() != want:
         with open(lp, "w") as f:
             f.write(lock)
         with open(stamp, "w") as f:
-            f.write(lock)
+            f.write(want)
     return RSRC
 
 
